@@ -87,7 +87,9 @@ def build_text(ctx, kind, has_time, has_ms, off):
             text = text + "." + oms
         F["oh"], F["om"] = oh, om
         if name is not None:
-            nm = ctx.str("name", name, PRINT_ASCII)
+            # long names: two symbolic characters around a fixed middle (the regular expression sees every character either way)
+            nm = ctx.str("name", name, PRINT_ASCII) if name <= 4 else \
+                ctx.str("name_a", 1, PRINT_ASCII) + "Central European Summer Time, UTC+02:00"[:name - 2] + ctx.str("name_z", 1, PRINT_ASCII)
             lay["name"] = (len(text) + 1, len(text) + 1 + name)
             text = text + ":" + nm
         lay["rbr"] = len(text)
@@ -395,6 +397,7 @@ HARNESSES = dict(write_season=h_write_season, read=h_read, reject_range=h_reject
                  write_naive=h_write_naive, roundtrip=h_roundtrip, gmt_offset=h_gmt_offset)
 
 META = dict(
+    run_wall_s=dict(thorough=2400),
     bounds=dict(years="1900-2200", offsets="-12:00..+14:00 in whole minutes", zone_names="0-3 printable ASCII characters",
                 resolution="microseconds (writer), milliseconds (reader)", edits="one inserted/deleted/substituted character"),
     models=["re (backtracking matcher on the real DT_REGEX/TIME_REGEX)", "int()", "datetime/time/timedelta/tzinfo arithmetic",
@@ -474,6 +477,9 @@ def instances(tier, seed):
         for e in ("insert", "delete", "nondigit") + (("letter_in_offset",) if off else ()):
             mk(f"reject_edit[{e}]:" + _nm(s), "reject_edit", dict(p, edit=e))
     for kind in ("dt", "time"):
+        # texts well beyond 32 characters: full form with a long zone name
+        mk(f"read:{kind}+T.ms[+hh.mm:n24]", "read", dict(kind=kind, has_time=True, has_ms=True, off=["+", 2, True, 24]))
+        mk(f"read:{kind}+T.ms[-h:n12]", "read", dict(kind=kind, has_time=True, has_ms=True, off=["-", 1, False, 12]))
         for named in ((None, 0, 2) if tier == "quick" else (None, 0, 1, 3)):
             mk(f"write:{kind}:name={named}", "write", dict(kind=kind, named=named), timeout_ms=30000)
         mk(f"write_naive:{kind}", "write_naive", dict(kind=kind))
